@@ -154,7 +154,7 @@ rfbInitOneRGBTable24 (uint8_t *table, int inMax, int outMax, int outShift,
     uint8_t c;
 
     for (i = 0; i < nEntries; i++) {
-      outValue = ((i * outMax + inMax / 2) / inMax) << outShift;
+      outValue = (((uint32_t)i * outMax + inMax / 2) / inMax) << outShift;
       *(uint32_t *)&table[3*i] = outValue;
       if(!rfbEndianTest) {
 	memmove(table+3*i,table+3*i+1,3);
